@@ -6,8 +6,9 @@
 set -u
 N="${1:-12}"; PROFILES="${2:-C02 C12 C16 C19}"
 export GOFLAGS=-mod=mod GOPROXY=off GOSUMDB=off GOTOOLCHAIN=local
-cd /verif/sim && go build -tags verif -o /verif/bin/layersim ./cmd/layersim || exit 2
-cd /verif; tmp=$(mktemp -d); fail=0; procs=0
+ROOT="$(cd "$(dirname "$0")" && pwd)"
+cd "$ROOT/sim" && go build -tags verif -o "$ROOT/bin/layersim" ./cmd/layersim || exit 2
+cd "$ROOT"; tmp=$(mktemp -d); fail=0; procs=0
 for prof in $PROFILES; do
   for s in $(seq 1 "$N"); do
     seed=$((s * 7919 + 13))
